@@ -676,7 +676,7 @@ impl Oracles {
             // If an implementation writes the attempt record before the marker,
             // the payment parameters were computed no later than this write.
             RpcKind::AttemptCreate
-                if self.entries.get(&x).map(|e| e.snap.is_none()).unwrap_or(false) =>
+                if self.entries.get(&x).map(|e| !e.attempt_started).unwrap_or(false) =>
             {
                 self.on_marker_issued(w, ri, &x, false)
             }
@@ -685,7 +685,13 @@ impl Oracles {
         }
     }
 
-    fn on_marker_issued(&mut self, w: &World, _ri: usize, x: &H32, is_marker: bool) {
+    /// Snapshot for C04 / C14 / C19: what the plugin can have seen of this
+    /// hash's HTLCs and of the chain when it collected the parameters of the
+    /// payment. Taken at the earliest moment the payment can be initiated (end
+    /// of the step in which the set is funded and the stored state is known)
+    /// or at the first write of the attempt, whichever comes first: HTLCs and
+    /// blocks arriving later may or may not be reflected in the request.
+    fn compute_snapshot(w: &World, x: &H32) -> ((u32, u32), Option<(u32, bool)>) {
         // Snapshot for C04: lenient bound on the minimum expiry the plugin saw.
         let mut min_earlier: Option<u32> = None;
         let mut max_this_step: Option<u32> = None;
@@ -727,16 +733,23 @@ impl Oracles {
             .node
             .held_calls()
             .any(|(_, c)| matches!(&c.class, Class::Trampoline(t) if &t.hash != x));
+        ((bound, told_low), exact.map(|m| (m, others_held)))
+    }
+
+    fn on_marker_issued(&mut self, w: &World, _ri: usize, x: &H32, is_marker: bool) {
+        let (snap, snap_exact) = Self::compute_snapshot(w, x);
         if let Some(e) = self.entries.get_mut(x) {
-            if e.snap.is_some() {
-                // Snapshot already taken at an earlier write of this attempt.
+            if e.attempt_started {
+                // An earlier write of this attempt was already seen.
                 e.marker_issued = e.marker_issued || is_marker;
                 return;
             }
             e.marker_issued = is_marker;
             e.attempt_started = true;
-            e.snap = Some((bound, told_low));
-            e.snap_exact = exact.map(|m| (m, others_held));
+            if e.snap.is_none() {
+                e.snap = Some(snap);
+                e.snap_exact = snap_exact;
+            }
             if !e.funded && e.doomed.is_none() && !e.order_ambiguous {
                 let (sum, amt) = (e.sum, e.amount_msat);
                 self.violate(
@@ -1809,6 +1822,35 @@ impl Oracles {
 
     pub fn end_of_step(&mut self, w: &World) {
         let step = w.step;
+        // ---- C04 snapshot at the earliest moment the payment can be initiated ------
+        let ready: Vec<H32> = self
+            .entries
+            .iter()
+            .filter(|(_, e)| {
+                e.snap.is_none()
+                    // (covered by what was handed over so far, whatever the
+                    // reference thinks of rejections: with handlers running
+                    // in either order the plugin may be ready regardless)
+                    && rf::suff(
+                        u64::try_from(e.sum).unwrap_or(u64::MAX),
+                        e.amount_msat,
+                        w.cfg.policy_base,
+                        w.cfg.policy_ppm,
+                    )
+                    && !e.attempt_started
+                    && e.first_answer.is_none()
+                    && (matches!(&e.fetch_reply, Some(Ok(StoreKind::Free)) | Some(Ok(StoreKind::Absent))) || e.restart_wait_done)
+            })
+            .map(|(x, _)| *x)
+            .collect();
+        for x in ready {
+            let (snap, snap_exact) = Self::compute_snapshot(w, &x);
+            if let Some(e) = self.entries.get_mut(&x) {
+                e.snap = Some(snap);
+                e.snap_exact = snap_exact;
+            }
+            self.hit("c04.snapshot-before-first-write");
+        }
         // ---- "answered in the delivery step" expectations (C13, C10 self-hint) -----
         let pending: Vec<(usize, u64, &'static str)> = std::mem::take(&mut self.expect_now);
         for (ci, s, prop) in pending {
